@@ -6,13 +6,14 @@ import vlib
 from checks import views
 
 CASTS = ["member_a", "member_b", "reint_int", "reint_short2", "static_const", "const_cast", "as_const", "transformed_a1",
-         "transformed_refb", "convert_array", "member_a_const", "reint_int_const", "reint_short2_const"]
+         "transformed_refb", "convert_array", "member_a_const", "reint_int_const", "reint_short2_const",
+         "member_b_const", "member_a_rv", "member_b_rv", "reint_int_rv", "reint_short2_rv"]
 POST = ["rotated", "unrotated", "reversed", "strided", "dropped", "transposed", "index"]
 OPS = [o for o in views.ALL_OPS if o != "broadcast"]
 
 
-def consts(D, ext, depth, maxpost):
-    return {"MaxD": D, "MaxExt": ext, "MaxDepth": depth, "MaxDim": 4, "Bases": vlib.Sub("BasesZero"), "OpNames": set(OPS),
+def consts(D, ext, depth, maxpost, bases="BasesZero"):
+    return {"MaxD": D, "MaxExt": ext, "MaxDepth": depth, "MaxDim": 4, "Bases": vlib.Sub(bases), "OpNames": set(OPS),
             "ParenArgs": 3, "ParenLean": True, "OneDimQuirk": False, "Emit": True, "Casts": set(CASTS), "PostOps": set(POST), "MaxPost": maxpost}
 
 
@@ -31,9 +32,9 @@ def run(tier):
     ok, text = vlib.compile_cpp(os.path.join(vlib.HARNESS, "replay_projection.cpp"), exe, std="c++20")
     if not ok:
         raise vlib.Broken("replay_projection.cpp does not compile:\n" + text[-3000:])
-    plan = [("c12_d2", consts(2, 3, 1, 1)), ("c12_d3", consts(3, 2, 1, 1))]
+    plan = [("c12_d2", consts(2, 3, 1, 1)), ("c12_d3", consts(3, 2, 1, 1)), ("c12_d2_bases", consts(2, 2, 1, 0, "BasesMixed"))]
     if tier == "thorough":
-        plan = [("c12_d2", consts(2, 3, 2, 2)), ("c12_d3", consts(3, 2, 2, 1)), ("c12_d3e3", consts(3, 3, 1, 2))]
+        plan = [("c12_d2", consts(2, 3, 2, 2)), ("c12_d3", consts(3, 2, 2, 1)), ("c12_d3e3", consts(3, 3, 1, 2)), ("c12_d2_bases", consts(2, 3, 1, 1, "BasesMixed"))]
     per_cast = rep.cov.setdefault("per_cast", {})
     nontrivial = set()
     for name, c in plan:
